@@ -25,6 +25,9 @@ type kase struct {
 	// Steps: a BED file whose i-th line was written at width Steps[i]; one reader reads it with its
 	// exported BedType field set to Steps[i] before the i-th Read
 	Steps []int `json:"steps,omitempty"`
+	// Junk: a line the reader rejects (or takes for a record of its own), put in front of the written text
+	// and read first; the written records that follow must come back as they were written
+	Junk string `json:"junk,omitempty"`
 }
 
 func check(c *enum.Ctx, k kase) {
@@ -80,10 +83,16 @@ func check(c *enum.Ctx, k kase) {
 			return
 		}
 		c.Guard("bed/read-panic", k, func() {
+			if k.Junk != "" {
+				text = append([]byte(k.Junk+"\n"), text...)
+			}
 			r, err := bed.NewReader(bytes.NewReader(text), k.Width)
 			if err != nil {
 				fail("reader", "%v", err)
 				return
+			}
+			if k.Junk != "" {
+				r.Read()
 			}
 			fs, _, err := featgen.ReadFeatures(r, len(k.Bed)+2)
 			if err != nil {
@@ -138,7 +147,13 @@ func check(c *enum.Ctx, k kase) {
 		}
 	}
 	c.Guard("gff/read-panic", k, func() {
+		if k.Junk != "" {
+			text = append([]byte(k.Junk+"\n"), text...)
+		}
 		r := gff.NewReader(bytes.NewReader(text))
+		if k.Junk != "" {
+			r.Read()
+		}
 		fs, _, err := featgen.ReadFeatures(r, len(k.Gff)+2)
 		if err != nil {
 			fail("read-error", "reading %q: %v", text, err)
@@ -159,7 +174,7 @@ func check(c *enum.Ctx, k kase) {
 }
 
 func run(c *enum.Ctx) {
-	c.Rule("BED: product of chrom {c, 'chr 1'} x (start,end) pairs over {-1,0,1,7,MaxInt64,MinInt64} x name {n,'a b','x#'} x score {-1,0,7,MaxInt64} x strand 3 x thick pairs x rgb {zero,(1,2,3),(0,0,0) opaque,(255,255,255)} x blocks 1..3, for record types 3/4/5/6/12 x every writer width <= type (reader at the same width), single records and pairs; one reader whose exported BedType field is stepped from line to line (5 width sequences); GFF: seqname/source/feature with and without inner space x start {0,1,9,-3} x length {1,5,big} x score {nil,0,-1.5,0.1,1e-300,MaxFloat64,+Inf,-Inf} x strand 3 x frame 4 x attribute lists {none,[ID x],[Tag_1 'v w',t2 ''],three incl. digits in tags} x comments {'', 'c d'} x header on/off; sequence-region lines; inline DNA/RNA/protein sequences of length 1..5 and 61 at widths 1,2,60; mixed files; non-trivial = every case (each writes at least one record)")
+	c.Rule("BED: product of chrom {c, 'chr 1'} x (start,end) pairs over {-1,0,1,7,MaxInt64,MinInt64} x name {n,'a b','x#'} x score {-1,0,7,MaxInt64} x strand 3 x thick pairs x rgb {zero,(1,2,3),(0,0,0) opaque,(255,255,255)} x blocks 1..3, for record types 3/4/5/6/12 x every writer width <= type (reader at the same width), single records and pairs; one reader whose exported BedType field is stepped from line to line (5 width sequences); GFF: seqname/source/feature with and without inner space x start {0,1,9,-3} x length {1,5,big} x score {nil,0,-1.5,0.1,1e-300,MaxFloat64,+Inf,-Inf} x strand 3 x frame 4 x attribute lists {none,[ID x],[Tag_1 'v w',t2 ''],three incl. digits in tags} x comments {'', 'c d'} x header on/off; sequence-region lines; inline DNA/RNA/protein sequences of length 1..5 and 61 at widths 1,2,60; mixed files; every third case again behind a line the reader rejects (read first, its outcome ignored); non-trivial = every case (each writes at least one record)")
 	c.Assume("text fields are non-empty, tab-free, trimmed and do not start with '#'; BED12 has at least one block; GFF features have positive length; attribute values contain no ';'; colours are zero or opaque; NaN scores are excluded; nil and empty attribute lists are the same thing")
 	const maxI, minI = int(^uint(0) >> 1), -int(^uint(0)>>1) - 1
 	var cases []kase
@@ -323,6 +338,16 @@ func run(c *enum.Ctx) {
 			}
 		}
 		cases = append(cases, kase{Format: "gff", Header: hdr, SeqW: 60})
+	}
+	// every third case again behind a line the reader rejects (too few columns, a non-numeric column, a
+	// one-column line): the written records that follow come back as written
+	junks := []string{"chrX\t1", "chrX\tx\t2\tn\t0\t+\t1\t2\t0\t1\t1\t0", "track_line", "seq\tsrc\tfeat\t1\t2\t.\t+", "seq\tsrc\tfeat\tx\t2\t.\t+\t."}
+	for i, k := range cases[:len(cases):len(cases)] {
+		if i%3 != 0 || len(k.Steps) > 0 {
+			continue
+		}
+		k.Junk = junks[(i/3)%len(junks)]
+		cases = append(cases, k)
 	}
 	c.Set("cases", len(cases))
 	enum.Parallel(16, func(sh int) {
